@@ -9,33 +9,98 @@ NOTE_BASE = ("Trusted: Lean 4.33 kernel (axioms propext/Classical.choice/Quot.so
              "(Go harness built from /repo with -tags verif vs the compiled Lean definitions). Go stdlib pieces "
              "(bufio, textproto, base64, strconv, strings, regexp, time) are modelled, not verified. ")
 
+def C(text, ref, technique, note):
+    return dict(text=text, ref=ref, technique=technique, note=note)
+
+CONV = "Lean 4 trace monitors (executable specifications) + hand-written Lean model of the command machine tied by a differential correspondence (conv probe)"
 CLAIMED = {
- "C01": dict(text="Machine-checked theorems over the Lean model of dataReader.Read for every stream, every read-size schedule "
-                  "(C01_exact, C01_sched_indep, spec recogniser proved equivalent to the declarative Terminated predicate); the model "
-                  "is tied to the code by an exhaustive transition-table correspondence plus enumerated/random multi-read cases, and the "
-                  "proved monitor is also evaluated on the implementation's own output.",
-             ref="DESIGN.md section 7 C01", technique="Lean 4 proof over a hand-written model + differential correspondence (dr probe)",
-             note="reader exercised as a component over bufio; segmentation inside a live conversation is covered by the conv probe"),
- "C02": dict(text="C02_only_marker (iff, both directions proved): the reader reaches EOF exactly on terminated streams; "
-                  "C02_eof_means_marker: for every input, limit and schedule EOF implies exact body and exact leftover input.",
-             ref="DESIGN.md section 7 C02", technique="Lean 4 proof + differential correspondence (dr probe; conv probe for resumption)",
-             note="reader part proved; conversation-level resumption tied by conv probe"),
- "C06": dict(text="C06_bound_data (never more than N octets for ANY input), C06_oversize_never_complete, C06_transparent (messages of at "
-                  "most N octets read exactly as without limit) proved for every stream and schedule.",
-             ref="DESIGN.md section 7 C06", technique="Lean 4 proof + differential correspondence (dr probe with budgets)",
-             note="DATA path proved; BDAT accounting and SIZE parameter via conv/mailargs probes"),
- "C07": dict(text="C07_data_cut / C07_eof_complete: for every cut point, limit and schedule no read reports EOF unless a complete "
-                  "terminated message was consumed (corollaries of the proved monitor theorem and run_eof_terminated).",
-             ref="DESIGN.md section 7 C07", technique="Lean 4 proof + differential correspondence (dr probe with every cut point)",
-             note="DATA path proved; BDAT via conv probe"),
+ "C01": C("Machine-checked theorems over the Lean model of dataReader.Read for every stream and every read-size schedule "
+          "(C01_exact, C01_sched_indep; the spec recogniser is proved equivalent to the declarative Terminated predicate; the monitor is proved "
+          "to accept the model on every input); model tied to the code by an exhaustive transition-table correspondence plus enumerated and "
+          "random multi-read cases; the proved monitor is also evaluated on the implementation's own output.",
+          "DESIGN.md 7 C01", "Lean 4 proof over a hand-written model + differential correspondence (dr probe)",
+          "reader exercised as a component over bufio; its use inside a live conversation is covered by the conv probe of C02"),
+ "C02": C("C02_only_marker proved in both directions (the reader reaches EOF exactly on terminated streams), C02_eof_means_marker for every "
+          "input, limit and schedule; conversation level: bait/marker monitor on real conversations (DATA bodies with look-alikes x backend "
+          "behaviours x limits x SMTP/LMTP) and correspondence with the server model.",
+          "DESIGN.md 7 C02", "Lean 4 proof (reader) + monitors and differential correspondence (dr, conv probes)",
+          "the resumption theorem on the wire model (C02_resume) is not yet proved; resumption is tied by the conv correspondence"),
+ "C03": C("The ordering monitor (Spec/Order.lean: Mail/Rcpt/Data order, recipient limit, Reset/Logout discipline, TLS state seen by NewSession) "
+          "is evaluated on every recorded conversation of the real server and the traces are compared with the Lean server model; the "
+          "invariant proof (Proofs/ServerInv.lean) covers Close, reset, protocol errors and RCPT so far.",
+          "DESIGN.md 7 C03", CONV,
+          "the whole-loop theorem C03_order is work in progress: proved for the primitives and handleRcpt, not yet for every handler"),
+ "C04": C("Strict RFC 5321 reply recogniser + enhanced-code class rule + own-verdict rule (DATA and chunked) evaluated on every recorded "
+          "conversation incl. forced delivery orders (sched probe); L3 theorem own_verdict_all_schedules proved for every schedule of the "
+          "chunked-delivery model.",
+          "DESIGN.md 7 C04", "Lean 4 proof of the L3 interleaving model + trace monitors + differential correspondence (conv, sched probes)",
+          "reply count/order per command is tied by the correspondence with the model, not yet by a theorem; echoed client octets in reply text are a design-phase finding not yet judged"),
+ "C05": C("Bait/marker and delivery-record monitors on all chunkings of short messages, every refusal with payload on the wire, LF-free runs around "
+          "the line limit, under 3-4 segmentations; correspondence with the server model.",
+          "DESIGN.md 7 C05", CONV, "framing theorem C05_frame on the wire model not yet proved; one known finding (line limiter below bufio)"),
+ "C06": C("C06_bound_data (never more than N octets for ANY input), C06_oversize_never_complete, C06_transparent proved for every stream and "
+          "schedule; BDAT accounting and SIZE parameter judged on conversations around the limit.",
+          "DESIGN.md 7 C06", "Lean 4 proof (DATA reader) + monitors and differential correspondence (dr, conv probes)",
+          "BDAT accounting (bytesReceived invariant) tied by the correspondence, not yet by a theorem"),
+ "C07": C("C07_data_cut / C07_eof_complete proved: for every cut point, limit and schedule no read reports EOF unless a complete terminated "
+          "message was consumed; every cut offset of 6 conversations (DATA, BDAT, LMTP) replayed on the real server with propagating backends.",
+          "DESIGN.md 7 C07", "Lean 4 proof (DATA reader) + every-cut-point correspondence (dr, conv probes)",
+          "BDAT (pipe closed cleanly only after a LAST chunk copied in full) tied by the correspondence, not yet by a theorem"),
+ "C08": C("Session-lifecycle monitor (one Logout per session, no callback after it, nothing after close) on every cut point of 6 conversations, "
+          "all server-initiated closes, sweeps and walks incl. TLS; closeConn/resetConn/protocolError proved to keep the ordering invariant.",
+          "DESIGN.md 7 C08", CONV, "whole-loop theorem work in progress (see C03)"),
+ "C09": C("AUTH reachability/at-most-once monitor on conversations over {plaintext, STARTTLS, implicit TLS} x AllowInsecureAuth x backend; "
+          "client half: Client.Auth against scripted peers, judged and compared with the Lean client model.",
+          "DESIGN.md 7 C09", CONV + "; cconv probe for the client", "one known finding (client sends '*' after a final negative reply); theorems pending"),
+ "C10": C("Real in-process TLS upgrades with plaintext injected behind STARTTLS: injected commands never executed, capability lines consistent "
+          "with the TLS state, sessions after the upgrade see TLS; compared with the Lean model (fresh wire and state after STARTTLS).",
+          "DESIGN.md 7 C10", CONV, "client half (DialStartTLS/SendMail against misbehaving peers) not yet built; crypto/tls abstracted to success => fresh stream"),
+ "C11": C("Every short string over 16 syntactically significant symbols and mutations of valid paths, classified by an independent RFC 5321 "
+          "reference grammar (valid => exact mailbox, invalid(class) => refused); parser entry points and parameter handling compared with the model.",
+          "DESIGN.md 7 C11", "Lean 4 reference grammar as executable judge + differential correspondence (parse, conv probes)",
+          "four lenient-parser classes are known findings; theorems pending"),
+ "C12": C("C12_caps_exact proved for all configurations and TLS states (all limits and mechanism lists), C12_ehlo_reply, C12_helo_none, "
+          "C12_disabled_504 proved; the complete 3072-point configuration space enumerated on the real server (TLS-active points over a real "
+          "handshake) with one probe command per extension.",
+          "DESIGN.md 7 C12", "Lean 4 proof + exhaustive configuration enumeration (conv probe)", "crypto/tls not modelled"),
+ "C13": C("Attribution specification (k-th status of an address to its k-th occurrence, return value otherwise) as executable judge on LMTP "
+          "conversations with duplicate recipients, status scripts, panics, DATA and BDAT, both backend kinds; compared with the model.",
+          "DESIGN.md 7 C13", CONV, "theorem C13_attribution pending; out-of-contract status calls on the DATA path are schedule dependent and not generated"),
+ "C14": C("All five codec functions compared with the Lean model on every Unicode scalar value (thorough) and short strings over the significant "
+          "alphabet; round-trip laws judged on the implementation's own encode/decode pairs.",
+          "DESIGN.md 7 C14", "Lean 4 executable codec model + differential correspondence (xtext, rt probes)", "round-trip theorems and the end-to-end probe pending"),
+ "C15": C("Line discipline and negotiated-parameter monitor on the real client: extension subsets x option subsets, EHLO twice, HELO fallback, "
+          "hostile strings in every string argument; compared with the Lean client model.",
+          "DESIGN.md 7 C15", "Lean 4 client model + monitors + differential correspondence (cconv probe)", "theorems pending"),
+ "C16": C("What the client's data writer puts on the wire is read back with the DATA specification (Spec.terminated?) and must be the normalised "
+          "body, for every body over {'.',LF,CRLF,'a'} and partitions; Close twice; compared with the dot-writer model.",
+          "DESIGN.md 7 C16", "Lean 4 dot-writer model + specification read-back + differential correspondence (cconv probe)", "C16_roundtrip theorem pending"),
+ "C17": C("Server rendering (writeError / dataErrorToStatus / writeResponse) composed with client parsing (textproto.ReadResponse + toSMTPErr) on "
+          "codes x enhanced-code modes x message shapes x call sites, judged by the normalisation law and compared with the model.",
+          "DESIGN.md 7 C17", "Lean 4 render/parse model + law monitor + differential correspondence (rt, reply, tosmtperr probes)", "C17_roundtrip theorem pending"),
+ "C18": C("LMTP client transactions (1-3 per connection, refused recipients, verdict vectors, with/without callback) judged (callbacks are the "
+          "current transaction's recipients) and compared with the Lean client model.",
+          "DESIGN.md 7 C18", "Lean 4 client model + monitor + differential correspondence (cconv probe)", "theorem pending"),
+ "C19": C("Hostile input without scripted panics: line lengths around the limit at every split, endless lines, all short byte strings, random "
+          "binary, error-threshold mixes: no recovered panic, long lines (and prefixes) never reach the backend, short lines never refused.",
+          "DESIGN.md 7 C19", CONV, "theorems pending; buffered-input bound is a property of the modelled bufio, not observed"),
+ "C20": C("PARTIAL. Proved: C20_second_close, C20_temp_errors (Serve survives any run of temporary errors, delays <= 1 s) on the lifecycle model; "
+          "own_verdict_all_schedules and never_blocked_step on the chunked-delivery interleaving model for every schedule; pinned-tree "
+          "counterexamples kept as regression witnesses. accept probe over outcome sequences, sched probe over forced delivery/Close/Shutdown orders "
+          "with goroutine-leak counting (thorough: under the race detector).",
+          "DESIGN.md 7 C20", "Lean 4 proof of interleaving/lifecycle models + schedule-forcing differential probes (accept, sched)",
+          "the Go memory model, scheduler fairness and kernel-blocked goroutines are not expressible in the model"),
 }
+# properties whose check audits at least one machine-checked theorem today (the others are claimed at the level of
+# their correspondence/monitor check until their theorems land)
+PROVED = {"C01", "C02", "C04", "C06", "C07", "C12", "C20"}
 NA_REASON = "check not built yet (work in progress, see DESIGN.md section 10)"
 
 m = {"version": 1, "setup_cmd": "./setup.sh",
      "hooks": {"guard": "verif",
                "enable": "go build -tags verif (the harness module replaces github.com/emersion/go-smtp by /repo)",
                "baseline_off_cmd": "cd /repo && GOFLAGS=-mod=mod GOPROXY=off GOSUMDB=off go test -count=1 ./...",
-               "source_commits": ["222df5c"], "add_only": True},
+               "source_commits": ["222df5c", "0a94ce4"], "add_only": True},
      "engines": [{"name": "smtpv-lean", "path": "lean/", "serves_properties": sorted(CLAIMED),
                   "kind_free_text": "Lean 4 model, specs, theorems and compiled line-protocol driver"},
                  {"name": "vharness", "path": "harness/", "serves_properties": sorted(CLAIMED),
@@ -53,7 +118,8 @@ for p in props:
                             "evidence_file": "evidence/%s.json" % pid,
                             "replay_cmd_template": "./check %s --replay {path}" % pid,
                             "engine": "smtpv-lean+vharness",
-                            "level_claimed": {"category": "proof", "text": c["text"], "design_ref": c["ref"]},
+                            "level_claimed": {"category": "proof" if pid in PROVED else "translation_validation",
+                                              "text": c["text"], "design_ref": c["ref"]},
                             "level_note": NOTE_BASE + c["note"], "technique": c["technique"]})
     else:
         m["not_applicable"].append({"property_id": pid, "reason": NA_REASON})
